@@ -288,6 +288,7 @@ fn write_file_contents<'data, A: Arch<Platform = Elf>>(
             Ok(())
         })
         .collect();
+    results.into_iter().collect::<Result>()?;
 
     for (output_section_id, _) in layout.output_sections.ids_with_info() {
         let relocations = layout
@@ -302,7 +303,6 @@ fn write_file_contents<'data, A: Arch<Platform = Elf>>(
                 relocations, "resolved relocations");
         }
     }
-    results.into_iter().collect::<Result>()?;
 
     fill_padding(section_buffers);
 
